@@ -163,8 +163,8 @@ CLAIMED = {
              'meaning of each parameter given by tlvs_meaning; the loop theorem C04_tlv_loop by induction over the parameter list). PDUs built by an '
              'independent encoder (harness/smppref.py) are fed to the real parse_header/from_pdu and to the model; the real pdu() bytes are '
              'compared octet by octet with the independent encoder.',
-        note='Trusted: Coq kernel, Spec/Smpp34.v and smppref.py as transcriptions of the standard, translator, harness. PARTIAL: no theorem yet for the '
-             'decoder on an arbitrary specification submit_sm/deliver_sm body (TLV permutations); that part rests on the correspondence runs. Proved '
+        note='Trusted: Coq kernel, Spec/Smpp34.v and smppref.py as transcriptions of the standard, translator, harness. The time strings of a foreign PDU enter '
+             'C04_sm_decode through smpp_to_time (C17); UDH with information elements other than concatenation first is outside. Proved '
              'for the code after fixes 7dca4fc, d468104, 0c64b68 (bind response without body), 5ac7354 (final zero octet of Octet String TLVs). No axioms.',
         technique='Coq proof: refinement of the model encoder to an independent specification layout + table sweeps; differential check against an independent reference encoder/decoder',
         design='6 (C04)'),
